@@ -56,7 +56,7 @@ def main():
         rc, o = sh("git apply %s" % patch, cwd=wt)
         applies = rc == 0
         rc1, o1 = sh("cargo test -j 6 --offline %s --test seed_demo 2>&1 | tail -25" % features, cwd=wt)
-        fails_with = "test result: FAILED" in o1 or "panicked" in o1
+        fails_with = "test result: FAILED" in o1 or "panicked" in o1 or "signal: 11" in o1 or "SIGSEGV" in o1 or "SIGABRT" in o1
         os.remove(os.path.join(wt, "tests", "seed_demo.rs"))
         rcb, ob = sh("python3 %s/tools/run_baseline.py %s" % (ROOT, wt))
         meta.update(applies_cleanly=applies, demo_passes_without=ok_without, demo_fails_with=fails_with,
